@@ -45,3 +45,18 @@ Definition hand_wrappers : prog2 :=
 Func2 "Dec" ["recv"] []
  [TCall None [DDefine "t1"] "Add" [(EVar "recv"); (EInt (-1)%Z)];
  TReturn None [(EVar "t1")]]].
+
+(* the exported surface of package gsync (functions with their result types, methods with their
+   receiver type): a wrapper type around the core, API methods on another type, an extra exported
+   entry point change this list; so does any function besides init() that assigns to or takes the
+   address of closedChan, the sentinel the model treats as a constant closed channel *)
+Definition hand_api : list string :=
+["SelectableWaitGroup.Add";
+ "SelectableWaitGroup.Count";
+ "SelectableWaitGroup.Dec";
+ "SelectableWaitGroup.Inc";
+ "SelectableWaitGroup.Wait";
+ "SelectableWaitGroup.WaitCTX";
+ "SelectableWaitGroup.WaitTimeout";
+ "func NewSelectableWaitGroup -> *SelectableWaitGroup";
+ "writes closedChan: init"].
